@@ -55,7 +55,25 @@ def rand_expr(rng, depth):
     return (op, [rand_expr(rng, depth - 1) for _ in range(n)])
 
 
+def in_module(rng, text):
+    """an inline module (sometimes two) with cfg attributes OF ITS OWN around the item: a module is none of the property's levels and
+    typeshare does not read its attributes, so they must neither hide the item nor pool with the item's own predicates
+    (seeded C13_e: the enclosing modules' cfg attributes prepended to the item's)"""
+    if rng.random() >= 0.25:
+        return text
+    def attr():
+        return f'#[cfg({show(rand_expr(rng, rng.randint(0, 2)))})]\n'
+    body = f'{attr()}mod inner {{\n{text}}}\n'
+    if rng.random() < 0.3:
+        body = f'{attr()}#[allow(dead_code)]\nmod outer {{\n{body}}}\n'
+    return body
+
+
 def source(level, cfgs, rng):
+    return _source(level, cfgs, rng) if level == 'file' else in_module(rng, _source(level, cfgs, rng))
+
+
+def _source(level, cfgs, rng):
     guard = ''.join(f'#[cfg({show(e)})] ' for e in cfgs)
     noise = rng.choice(['', '/// doc\n', '#[derive(Debug)] ', '#[serde(rename = "x")] '])
     if level == 'file':
@@ -109,6 +127,8 @@ def guarded_attrs(level, ast):
     if level == 'file':
         return fattrs
     it = items[0]
+    while it[0] == 'nest':      # inline modules: the converter keeps the nesting, not the modules' attributes (typeshare does not read them)
+        it = it[1][0]
     if level in ('struct', 'enum', 'alias', 'const'):
         return it[1]
     if level == 'variant':
